@@ -109,6 +109,15 @@ def handleC14Mut (fs : List (String × String)) : String := Id.run do
       | _ => pure ()
   return verdict agree bad (n ≥ 100) s!"c14-{path}-v{v}-{src}" (String.intercalate ";" notes)
 
+def handleC15 (kind : String) (fs : List (String × String)) : String :=
+  match kind with
+  | "tap" => if (get fs "err").isSome then "PARSE create" else
+      let bad := getD fs "bad" "-"
+      let n := (getNat fs "packets").getD 0 + (getNat fs "streams").getD 0
+      verdict (bad == "-") (if bad == "-" then none else some bad) (n ≥ 8)
+        s!"tap-l{getD fs "late" "0"}r{getD fs "rotate" "0"}s{getD fs "skip" "0"}p{getD fs "proto" "2"}" ""
+  | _ => "PARSE kind"
+
 def handleC14 (kind : String) (fs : List (String × String)) : String :=
   match kind with
   | "mut" => handleC14Mut fs
